@@ -665,6 +665,23 @@ func c02Tables(c *vlib.Ctx, ck *Checker[c02Case]) {
 		cred.Credentialed = true
 		cells = append(cells, cell{cred, ins})
 	}
+	// every length from 1 to 140 bytes of a configured request-header name and of a configured method (alone, and next
+	// to short ones); asked with the name itself, with a name one byte shorter / longer, and with another name of the
+	// same length
+	for n := 1; n <= 140; n++ {
+		hn, mn := "x"+strings.Repeat("h", n-1), "M"+strings.Repeat("E", n-1)
+		ins := []ref.Intent{
+			{Origin: org, Method: "GET", Headers: []string{hn}}, {Origin: org, Method: mn}, {Origin: org, Method: mn, Headers: []string{hn}},
+			{Origin: org, Method: "GET", Headers: []string{hn + "h"}}, {Origin: org, Method: mn + "E"},
+			{Origin: org, Method: "GET", Headers: []string{"y" + hn[1:]}}, {Origin: org, Method: "N" + mn[1:]},
+			{Origin: org, Method: "GET", Headers: []string{"x-a", hn}}, {Origin: org, Method: "PUT", Headers: []string{hn}},
+		}
+		if n > 1 {
+			ins = append(ins, ref.Intent{Origin: org, Method: "GET", Headers: []string{hn[:n-1]}}, ref.Intent{Origin: org, Method: mn[:n-1]})
+		}
+		cells = append(cells, cell{CfgLit{Origins: []string{org}, Methods: []string{mn}, RequestHeaders: []string{strings.ToUpper(hn)}}, ins},
+			cell{CfgLit{Origins: []string{org}, Credentialed: true, Methods: []string{"PUT", mn}, RequestHeaders: []string{"X-A", hn, "X-Zz"}}, ins})
+	}
 	// one host under several schemes with different port sets, in every order of two and three patterns
 	sp := []string{"https://a.example", "http://a.example:8080", "https://a.example:9", "http://a.example", "ws://a.example:8080", "https://*.a.example:8080", "http://*.a.example"}
 	var spIntents []ref.Intent
